@@ -75,9 +75,9 @@ Print Assumptions c40_header_index_window.
     block, a restart in the middle) satisfies the hypotheses, and the model really computes the
     committed blocks for it. *)
 Definition ex_tx (k : N) : tx := {| t_hash := k; t_body := k + 1000 |}.
-Definition ex_g : block := {| b_hdr := {| h_hash := 11; h_height := 0; h_body := 1 |}; b_txs := [ex_tx 101] |}.
-Definition ex_b1 : block := {| b_hdr := {| h_hash := 12; h_height := 1; h_body := 2 |}; b_txs := [ex_tx 102; ex_tx 103] |}.
-Definition ex_b2 : block := {| b_hdr := {| h_hash := 13; h_height := 2; h_body := 3 |}; b_txs := [] |}.
+Definition ex_g : block := {| b_hdr := {| h_hash := 11; h_height := 0; h_body := 1; h_keys := 4; h_sigs := 3 |}; b_txs := [ex_tx 101] |}.
+Definition ex_b1 : block := {| b_hdr := {| h_hash := 12; h_height := 1; h_body := 2; h_keys := 4; h_sigs := 3 |}; b_txs := [ex_tx 102; ex_tx 103] |}.
+Definition ex_b2 : block := {| b_hdr := {| h_hash := 13; h_height := 2; h_body := 3; h_keys := 4; h_sigs := 3 |}; b_txs := [] |}.
 Definition ex_ops : list op :=
   [OAddHeader (b_hdr ex_b1); OCommit ex_b1; OCommit ex_g; OReopen; OAddHeader (b_hdr ex_b2); OCommit ex_b2].
 
